@@ -394,6 +394,21 @@ func (d *drv) runHD(r *Rng, n int) {
 	}
 	d.side.Extra["leading_zero_parents_found"] = lead0Found
 
+	// a derived (final) key whose first byte is zero: Derive must still return 32 bytes (left padded), the same
+	// key every wallet shows.  Hardened-only paths make the search cheap (HMAC only): ~256 tries per hit.
+	finalLead0 := 0
+	for i := 0; i < 4000 && finalLead0 < 2; i++ {
+		path := []uint32{hk + 44, hk + 60, hk + uint32(i)}
+		k, _, err := bip32Derive(seed, path)
+		if err != nil || k[0] != 0 {
+			continue
+		}
+		finalLead0++
+		d.side.Count("derive:final-key-with-leading-zero-byte")
+		d.deriveCase(mn, "", path, fmtPath(path), "final-lead0")
+	}
+	d.side.Extra["leading_zero_final_keys_found"] = finalLead0
+
 	// Generate(): copies the given bytes into a 32-byte key
 	gen := evhd.EthSecp256k1.Generate()
 	for i := 0; i < 12; i++ {
